@@ -159,6 +159,8 @@ def run(c):
                                                  r["allowed"], json.dumps(cmd["doc"])[:600]),
                     {"kind": kd}, {"cmd": cmd, "spec_allow": k["allow"], "impl": r, "count": len(lst)})
     listener_slice(c, rnd, thorough)
+    from checks import proxylib
+    proxylib.identity_history(c, "C02")
     c.exhaustive = True
     c.rule = ("cases = every (document, caller, URL) of three complete small universes enumerated by TLC; each evaluated "
               "on the real deserialize+compute+is_allowed path in its base form, under list permutations and under "
